@@ -14,6 +14,9 @@ for p in "$@"; do
   out=$(./check "$p" 2>&1); rc=$?
   echo "== $p exit=$rc"
   echo "$out" | grep -E "^(VIOLATION|KNOWN-FINDING)" | cut -c1-200
+  echo "$out" | grep -o 'replay=[^ ]*' | cut -d= -f2 | head -5 | while read f; do python3 -c "
+import json
+o=json.load(open('$f')); print('     ', o.get('signature') or 'no-failing-input', '|', (o.get('what') or str(o.get('no_longer_checks') or o.get('errors')))[:220])" 2>/dev/null; done
   echo "$out" | tail -1 | cut -c1-220
 done
 rm -rf $VERIF_EVID
